@@ -2,6 +2,7 @@ package fs
 
 import (
 	"archive/tar"
+	"io"
 	"os"
 	"strings"
 	"time"
@@ -42,7 +43,21 @@ func Harness_C09_tape_reveals_only_sizes() {
 	}
 	// one call of each kind of record: directory, file with content, metadata update, move, symlink, delete
 	var err error
-	switch vm.Choice("op", 12) {
+	switch vm.Choice("op", 13) {
+	case 12:
+		// a batched archive-level call, as `stfs operation archive` issues it: a directory and a file with content
+		members := []config.FileConfig{
+			{GetFile: func() (io.ReadSeekCloser, error) { return &c01Src{}, nil }, Info: c01Info{name: "secretdir", mode: os.ModeDir | 0o750}, Path: "/secretdir"},
+			{GetFile: func() (io.ReadSeekCloser, error) { return &c01Src{data: []byte("topsecret")}, nil }, Info: c01Info{name: "secretfile", size: 9, mode: 0o600}, Path: "/secretdir/secretfile"},
+		}
+		i := 0
+		_, err = v.Env.WriteOps.Archive(func() (config.FileConfig, error) {
+			if i >= len(members) {
+				return config.FileConfig{}, io.EOF
+			}
+			i++
+			return members[i-1], nil
+		}, config.CompressionLevelFastestKey, false, false)
 	case 6:
 		err = v.FS.Mkdir("/secretdir", 0o750)
 		if err == nil {
